@@ -272,6 +272,7 @@ var analysisVocab = map[string][]string{
 		"dell’Italia", "un’altra", "all’ora", "nell’acqua", "sull’isola", "dall’alto", "gl’italiani", "l’Hospitalet", "d’Història", "s’ha", "n’hi",
 		"b’fhearr", "d’fhág", "m’athair", "b'fhearr", "m'athair", "L’Avion", "l’", "’l", "l’’a", "l’l’a", "x’y", "été", "avion"},
 	"possessive": {"dog's", "dogs’", "John's", "JOHN'S", "it’s", "she＇s", "x＇S", "'s", "’s", "s", "S", "ss", "'", "s's", "boss's", "a's's", "é's", "\xff's", "\xe2\x80s", "’\x99s", "cats", "is", "O'Neil's"},
+	"folding":    {"Æon", "ﬁx", "ﬃ", "Ǆ", "ǆ", "ß", "ẞ", "Þorn", "œuvre", "Ĳ", "⑴", "⒈", "⑳", "⓪", "㈠", "«»", "‹x›", "“q”", "‘q’", "–—", "⁅⁆", "ａｂｃＡＢＣ", "１２３", "～＿", "Ꜳꜳ", "Ꝡ", "ⱥ", "ɐ", "ᵫ", "ȸ", "ʣ", "ﬆ", "‼", "⁇", "℅", "Ａ\xff", "\xc3"},
 	"special": {"Kelvin", "ȺȾ", "ǅ", "ẞ", "ﬁnance", "ǆ", "İi", "ΐ", "ß", "Ω", "ⅷ", "é", "é", "ö̈", "à́b", "́", "‌", "‍",
 		"\ufeff", " ", " ", "\u0085", "�", "x�y", "\U0001F600", "🇩🇪", "👍🏽", "\u0000", "a\u0000b", "\t", "\r\n"},
 }
@@ -889,6 +890,16 @@ func (e *analysisEngine) charFilters(per int) {
 		for i := 0; i < per; i++ {
 			inputs = append(inputs, analysisGen(e.rng, ""))
 		}
+		switch ce.name { // more of the text these two rewrite
+		case "asciifolding":
+			for i := 0; i < 4*per; i++ {
+				inputs = append(inputs, analysisGen(e.rng, []string{"folding", "de", "fr", "tr", "special", "cjk"}[e.rng.Intn(6)]))
+			}
+		case "zwnj":
+			for i := 0; i < 2*per; i++ {
+				inputs = append(inputs, analysisGen(e.rng, "fa"))
+			}
+		}
 		for _, in := range inputs {
 			var o1, o2 []byte
 			arg := append([]byte{}, in.data...)
@@ -902,6 +913,15 @@ func (e *analysisEngine) charFilters(per int) {
 			if !bytes.Equal(o1, o2) {
 				e.w.OracleFail(analysisKeyFor("determinism", "charfilter:"+ce.name, false), "two runs differ", analysisQ(in.data))
 				continue
+			}
+			// exact models of the table-driven / one-rune filters
+			switch ce.name {
+			case "asciifolding":
+				e.w.Add(fmt.Sprintf("CAsciiFold %s %s", analysisBytes(in.data), cq.Some(analysisBytes(o1))), "exact:charfilter:asciifolding",
+					!bytes.Equal(o1, in.data), map[string]interface{}{"class": in.class, "input": analysisQ(in.data)})
+			case "zwnj":
+				e.w.Add(fmt.Sprintf("CZwnj %s %s", analysisBytes(in.data), analysisBytes(o1)), "exact:charfilter:zwnj",
+					!bytes.Equal(o1, in.data), map[string]interface{}{"class": in.class, "input": analysisQ(in.data)})
 			}
 			// the filter in front of a tokenizer: offsets refer to the rewritten text
 			a := &analysis.Analyzer{CharFilters: []analysis.CharFilter{ce.mk()}, Tokenizer: tokenizer.NewUnicodeTokenizer(),
@@ -1659,6 +1679,39 @@ func (e *analysisEngine) witnesses() {
 		}) {
 			e.w.Add(fmt.Sprintf("CShingle 2 2 false %s %s %s %s", analysisBytes([]byte(" ")), analysisBytes([]byte("_")), analysisCoqStream(tin), analysisCoqOptStream(out, false)), "witness:shingle-unordered", true,
 				map[string]interface{}{"tokens_in": analysisShowTokens(tin), "tokens_out": analysisShowTokens(out)})
+		}
+	}
+	// the witnesses of camel_pinned_refuted / dict_compound_pinned_refuted / bigram_pinned_refuted on
+	// the repaired implementation: the offsets now stay inside the source token (model with clamp = true)
+	{
+		tin := []analysisTokSnap{{0, 2, []byte("\xff\xff"), 1, 0, false}, {2, 4, []byte("ȺȾⱥⱦ"), 1, 0, false}}
+		var out []analysisTokSnap
+		if e.guarded("exact:camelcase", "witness", "term longer than its span", true, func() {
+			out = analysisSnapTokens(token.NewCamelCaseFilter().Filter(analysisThaw(nil, tin)))
+		}) {
+			e.w.Add(fmt.Sprintf("CCamel true %s %s %s %s %s", analysisRuneSet(tin, unicode.IsLower), analysisRuneSet(tin, unicode.IsUpper), analysisRuneSet(tin, unicode.IsNumber), analysisCoqStream(tin), analysisCoqStream(out)),
+				"witness:camel-offsets", true, map[string]interface{}{"tokens_in": analysisShowTokens(tin), "tokens_out": analysisShowTokens(out)})
+		}
+	}
+	{
+		tin := []analysisTokSnap{{0, 1, []byte("abc"), 1, 0, false}, {1, 4, []byte("صلى الله عليه"), 1, 0, false}}
+		var out []analysisTokSnap
+		if e.guarded("exact:dictcompound", "witness", "term longer than its span", false, func() {
+			out = analysisSnapTokens(token.NewDictionaryCompoundFilter(analysisTokenMapOf("c", "الله"), 1, 1, 4, false).Filter(analysisThaw(nil, tin)))
+		}) {
+			e.w.Add(fmt.Sprintf("CDict true %s 1 1 4 false %s %s", analysisBytesList([][]byte{[]byte("c"), []byte("الله")}), analysisCoqStream(tin), analysisCoqOptStream(out, false)),
+				"witness:dict-offsets", true, map[string]interface{}{"tokens_in": analysisShowTokens(tin), "tokens_out": analysisShowTokens(out)})
+		}
+	}
+	for _, uni := range []bool{false, true} {
+		uni := uni
+		tin := []analysisTokSnap{{1, 4, []byte("���"), 1, int(analysis.Ideographic), false}, {4, 7, []byte("n2q"), 1, 0, false}, {8, 14, []byte("漢\xff字"), 1, int(analysis.Ideographic), false}}
+		var out []analysisTokSnap
+		if e.guarded("exact:cjkbigram", "witness", "term longer than its span", true, func() {
+			out = analysisSnapTokens(cjk.NewBigramFilter(uni).Filter(analysisThaw(nil, tin)))
+		}) {
+			e.w.Add(fmt.Sprintf("CBigram true %s %s %s", cq.B(uni), analysisCoqStream(tin), analysisCoqStream(out)),
+				"witness:bigram-offsets", true, map[string]interface{}{"tokens_in": analysisShowTokens(tin), "tokens_out": analysisShowTokens(out)})
 		}
 	}
 	// lowercase: a narrower replacement followed by unchanged runes keeps stale bytes (Kelvin sign)
